@@ -21,8 +21,9 @@ Definition rep_obj (k : cnt) (extra : list (string * val)) :=
         ("skips", VInt (skips k)) :: ("exceptions", VInt (exceptions k)) :: extra).
 (* a world: the reporter is object 0; receive_cgreen_message() answers with the records in the
    pipe, then with 0 *)
-Definition rw (k : cnt) extra (pipe : list msg) (tr : list (string * list val)) :=
-  mkw [rep_obj k extra] [] [("receive_cgreen_message", map (fun m => VInt (code_of m)) pipe)] tr.
+Definition rwt (tl : list obj) (k : cnt) extra (pipe : list msg) (tr : list (string * list val)) :=
+  mkw (rep_obj k extra :: tl) [] [("receive_cgreen_message", map (fun m => VInt (code_of m)) pipe)] tr.
+
 
 Definition b2z (b : bool) : Z := if b then 1 else 0.
 Definition bounded (k : cnt) (n : nat) : Prop :=
@@ -79,6 +80,11 @@ Ltac range_ok :=
       rewrite (in_range_I32 z) by (unfold bounded in *; cbn [passes failures skips exceptions List.length] in *; lia)
   end.
 
+Section Tail.
+(* whatever lies behind the reporter in the heap (a reporter's memo, ...) is not touched *)
+Variable tl : list obj.
+Local Notation rw := (rwt tl).
+
 (* the loop of read_reporter_results(), from any iteration on *)
 Lemma loop_spec : forall pipe n k sk tr (r : option Z) extra,
   (List.length pipe < n)%nat -> bounded k (List.length pipe) ->
@@ -92,7 +98,7 @@ Lemma loop_spec : forall pipe n k sk tr (r : option Z) extra,
 Proof.
   induction pipe as [|m pipe IH]; intros n k sk tr r extra Hn Hb.
   - destruct n as [|n]; [cbn in Hn; lia|].
-    destruct k as [p f s e]. unfold rw, rep_obj, locals_ss. cbn [passes failures skips exceptions].
+    destruct k as [p f s e]. unfold rwt, rep_obj, locals_ss. cbn [passes failures skips exceptions].
     cbn [loop_of fbody code_read_reporter_results map read_results existsb].
     eexists; exists [recv_ev]. split; [repeat constructor|].
     rewrite exec_loop. destruct sk, r; cbn [b2z app]; srun prog_reporter; reflexivity.
@@ -105,7 +111,7 @@ Proof.
       destruct (IH n (mkcnt (p + 1) f s e) sk (("receive_cgreen_message", [VInt 9]) :: tr) (Some 1) extra Hn') as (r' & tr1 & Hrecv & IH'); [unfold bounded in *; cbn [passes failures skips exceptions cadd List.length] in *; lia|];
         exists r', (tr1 ++ [recv_ev]); (split; [apply Forall_app; split; [exact Hrecv|repeat constructor]|]);
         rewrite <- app_assoc; change ([recv_ev] ++ tr) with (("receive_cgreen_message", [VInt 9]) :: tr); clear IH.
-      unfold rw, rep_obj, locals_ss in *. cbn [passes failures skips exceptions cadd] in *.
+      unfold rwt, rep_obj, locals_ss in *. cbn [passes failures skips exceptions cadd] in *.
       cbn [loop_of fbody code_read_reporter_results map code_of] in *.
       rewrite exec_loop. destruct sk, r; cbn [b2z app] in *; srun prog_reporter; range_ok; srun prog_reporter;
         exact IH'.
@@ -114,7 +120,7 @@ Proof.
       destruct (IH n (mkcnt p (f + 1) s e) sk (("receive_cgreen_message", [VInt 9]) :: tr) (Some 2) extra Hn') as (r' & tr1 & Hrecv & IH'); [unfold bounded in *; cbn [passes failures skips exceptions cadd List.length] in *; lia|];
         exists r', (tr1 ++ [recv_ev]); (split; [apply Forall_app; split; [exact Hrecv|repeat constructor]|]);
         rewrite <- app_assoc; change ([recv_ev] ++ tr) with (("receive_cgreen_message", [VInt 9]) :: tr); clear IH.
-      unfold rw, rep_obj, locals_ss in *. cbn [passes failures skips exceptions cadd] in *.
+      unfold rwt, rep_obj, locals_ss in *. cbn [passes failures skips exceptions cadd] in *.
       cbn [loop_of fbody code_read_reporter_results map code_of] in *.
       rewrite exec_loop. destruct sk, r; cbn [b2z app] in *; srun prog_reporter; range_ok; srun prog_reporter;
         exact IH'.
@@ -123,7 +129,7 @@ Proof.
       * destruct (IH n (mkcnt p f s e) true (("receive_cgreen_message", [VInt 9]) :: tr) (Some 3) extra Hn') as (r' & tr1 & Hrecv & IH'); [unfold bounded in *; cbn [passes failures skips exceptions cadd List.length] in *; lia|];
         exists r', (tr1 ++ [recv_ev]); (split; [apply Forall_app; split; [exact Hrecv|repeat constructor]|]);
         rewrite <- app_assoc; change ([recv_ev] ++ tr) with (("receive_cgreen_message", [VInt 9]) :: tr); clear IH.
-        unfold rw, rep_obj, locals_ss in *. cbn [passes failures skips exceptions cadd] in *.
+        unfold rwt, rep_obj, locals_ss in *. cbn [passes failures skips exceptions cadd] in *.
         cbn [loop_of fbody code_read_reporter_results map code_of b2z] in *.
         rewrite exec_loop. destruct r; cbn [app] in *; srun prog_reporter;
         exact IH'.
@@ -131,12 +137,12 @@ Proof.
       destruct (IH n (mkcnt p f (s + 1) e) true (("receive_cgreen_message", [VInt 9]) :: tr) (Some 3) extra Hn') as (r' & tr1 & Hrecv & IH'); [unfold bounded in *; cbn [passes failures skips exceptions cadd List.length] in *; lia|];
         exists r', (tr1 ++ [recv_ev]); (split; [apply Forall_app; split; [exact Hrecv|repeat constructor]|]);
         rewrite <- app_assoc; change ([recv_ev] ++ tr) with (("receive_cgreen_message", [VInt 9]) :: tr); clear IH.
-        unfold rw, rep_obj, locals_ss in *. cbn [passes failures skips exceptions cadd] in *.
+        unfold rwt, rep_obj, locals_ss in *. cbn [passes failures skips exceptions cadd] in *.
         cbn [loop_of fbody code_read_reporter_results map code_of b2z] in *.
         rewrite exec_loop. destruct r; cbn [app] in *; srun prog_reporter; range_ok; srun prog_reporter;
         exact IH'.
     + (* completion *)
-      unfold rw, rep_obj, locals_ss. cbn [passes failures skips exceptions].
+      unfold rwt, rep_obj, locals_ss. cbn [passes failures skips exceptions].
       cbn [loop_of fbody code_read_reporter_results map code_of].
       eexists; exists [recv_ev]. split; [repeat constructor|].
       rewrite exec_loop. destruct sk, r; cbn [b2z status_code skipped_of app]; srun prog_reporter;
@@ -146,7 +152,7 @@ Proof.
       destruct (IH n (mkcnt p f s (e + 1)) sk (("receive_cgreen_message", [VInt 9]) :: tr) (Some 5) extra Hn') as (r' & tr1 & Hrecv & IH'); [unfold bounded in *; cbn [passes failures skips exceptions cadd List.length] in *; lia|];
         exists r', (tr1 ++ [recv_ev]); (split; [apply Forall_app; split; [exact Hrecv|repeat constructor]|]);
         rewrite <- app_assoc; change ([recv_ev] ++ tr) with (("receive_cgreen_message", [VInt 9]) :: tr); clear IH.
-      unfold rw, rep_obj, locals_ss in *. cbn [passes failures skips exceptions cadd] in *.
+      unfold rwt, rep_obj, locals_ss in *. cbn [passes failures skips exceptions cadd] in *.
       cbn [loop_of fbody code_read_reporter_results map code_of] in *.
       rewrite exec_loop. destruct sk, r; cbn [b2z app] in *; srun prog_reporter; range_ok; srun prog_reporter;
         exact IH'.
@@ -227,7 +233,7 @@ Proof.
   rewrite exec_seq. srun prog_reporter. rewrite HC. clear HC.
   pose proof (read_results_exceptions_bound pipe k false) as Hex.
   destruct (read_results pipe k false) as [[rest k1] st]. cbn [fst snd] in Hex.
-  destruct k1 as [p1 f1 s1 e1]. unfold rw, rep_obj, rep_extra. cbn [passes failures skips exceptions cadd] in *.
+  destruct k1 as [p1 f1 s1 e1]. unfold rwt, rep_obj, rep_extra. cbn [passes failures skips exceptions cadd] in *.
   destruct st; cbn [status_code]; srun prog_reporter.
   - reflexivity.
   - reflexivity.
@@ -256,9 +262,13 @@ Proof.
   cbn [bind_params fparams fbody code_reporter_finish_suite].
   rewrite exec_seq. srun prog_reporter. rewrite HC. clear HC.
   destruct (read_results pipe k false) as [[rest k1] st].
-  destruct k1 as [p1 f1 s1 e1]. unfold rw, rep_obj, rep_extra. cbn [passes failures skips exceptions].
+  destruct k1 as [p1 f1 s1 e1]. unfold rwt, rep_obj, rep_extra. cbn [passes failures skips exceptions].
   srun prog_reporter. reflexivity.
 Qed.
+
+End Tail.
+(* ... with nothing behind the reporter *)
+Notation rw := (rwt []).
 
 (* the sending side: what each notification function puts on the channel *)
 Definition sw (tr : list (string * list val)) := mkw [ORec [("ipc", VInt 9)]] [] [] tr.
